@@ -674,9 +674,12 @@ impl<'p, 's, M: Matcher, W: WriteColor> Sink for SummarySink<'p, 's, M, W> {
             )?;
             count
         };
-        if is_multi_line {
+        if is_multi_line && !searcher.invert_match() {
             self.match_count += sink_match_count;
         } else {
+            // When the search is inverted, every call reports exactly one
+            // line that does not participate in any match, so there are no
+            // pattern matches to count in it: count the line itself.
             self.match_count += 1;
         }
         if let Some(ref mut stats) = self.stats {
